@@ -37,10 +37,18 @@ def negative_tests(ctx, which):
     ctx.notes["negative_tests"] = res
 
 
-def behaviours(ctx, num, depth, calls=14):
+def behaviours(ctx, num, depth, calls=14, focus=True):
     cfg = core.cfg_of("HDWallet.cfg").replace("MaxCalls = 4", "MaxCalls = %d" % calls)
     bs, n = simreplay.simulate("HDWallet", cfg, num, depth, ctx.seed + 1, variables=("obs", "pc", "net"), timeout=1200)
     ctx.transitions += n
+    if focus:
+        # generator-dense behaviours from the restricted next-state relation (same actions, same invariants);
+        # indexes 0..3 so that cursors can advance
+        cfg2 = cfg.replace("SPECIFICATION Spec", "SPECIFICATION SpecGenFocus").replace("IndexVals = {0, 1, 4}", "IndexVals = {0, 1, 2, 3}") \
+                  .replace("MaxDepth = 2", "MaxDepth = 2")
+        bs2, n2 = simreplay.simulate("HDWallet", cfg2, max(20, num // 2), depth + 4, ctx.seed + 2, variables=("obs", "pc", "net"), timeout=1200)
+        ctx.transitions += n2
+        bs += bs2
     for b in bs:
         b[0]["net"] = b[0].get("net", "main")
     return bs
@@ -93,6 +101,14 @@ def run(ctx):
     negative_tests(ctx, [("memo", "Pure")])
     bs = behaviours(ctx, 150 if ctx.quick else 3000, 16)
     replay_all(ctx, bs, FAMILY, threaded_groups=8 if ctx.quick else 150)
+    # free-running threads hammering shared nodes (by_path / derive_path / generate_children / generators)
+    try:
+        st = hdreplay.stress_threads(seconds=12 if ctx.quick else 120, seed=ctx.seed)
+        ctx.notes["thread_stress"] = st
+        ctx.evaluations += st["calls"]
+        ctx.traces += st["threads"]
+    except hdreplay.Mismatch as m:
+        ctx.violation("hdwallet-thread-stress", m.family, m.what, {"mode": "stress", "seed": ctx.seed})
     # binding self-check: a behaviour with one step's result tampered with must be flagged
     ctx.binding_selfcheck = selfcheck(bs)
     return ctx.finish(
@@ -126,7 +142,9 @@ def selfcheck(bs):
 def replay(ctx, path):
     rp = core.load_replay(path)
     try:
-        if rp.get("mode") == "threads":
+        if rp.get("mode") == "stress":
+            hdreplay.stress_threads(seconds=30, seed=rp.get("seed", 0))
+        elif rp.get("mode") == "threads":
             hdreplay.run_threaded(rp["behaviours"])
         else:
             hdreplay.run_behaviour(rp["behaviour"])
